@@ -1,6 +1,70 @@
-"""rustc trait-solver probes for C16 (filled in later)."""
+"""C16: rustc trait-solver probes (DESIGN.md 5 C16).  Every probe is a program that must compile."""
+import json
+import os
+import shutil
+import subprocess
+import sys
+import time
+
 import vxlib
+
+sys.path.insert(0, os.path.join(vxlib.VERIF, "typeprobes"))
 
 
 def run(prop, tier, workdir):
-    raise vxlib.Infra("type probes not implemented yet")
+    import gen
+    os.makedirs(workdir, exist_ok=True)
+    crate = os.path.join(workdir, "crate")
+    table = gen.main(crate, os.path.realpath(vxlib.REPO))
+    lock = os.path.join(vxlib.REPO, "Cargo.lock")
+    if os.path.exists(lock):
+        shutil.copy(lock, os.path.join(crate, "Cargo.lock"))
+    env = dict(os.environ, CARGO_NET_OFFLINE="true", CARGO_TERM_COLOR="never")
+    env.pop("RUSTUP_TOOLCHAIN", None)
+    tdir = os.path.join(vxlib.WORK, "types-target") if os.path.realpath(vxlib.REPO) == "/repo" else os.path.join(workdir, "target")
+    cmd = ["cargo", "check", "--offline", "--examples", "--keep-going", "--message-format=json", "--target-dir", tdir]
+    t0 = time.time()
+    p = subprocess.run(cmd, cwd=crate, env=env, capture_output=True, text=True, timeout=1800)
+    wall = time.time() - t0
+    errs = {}
+    built = set()
+    infra = []
+    for l in p.stdout.split("\n"):
+        if not l.startswith("{"):
+            continue
+        try:
+            j = json.loads(l)
+        except Exception:
+            continue
+        if j.get("reason") == "compiler-message" and j["message"].get("level") == "error":
+            tgt = j.get("target", {})
+            if "example" in tgt.get("kind", []):
+                errs.setdefault(tgt["name"], []).append(j["message"].get("rendered") or j["message"].get("message"))
+            else:
+                infra.append("error outside the probes (%s): %s" % (tgt.get("name"), (j["message"].get("rendered") or "")[:800]))
+        if j.get("reason") == "compiler-artifact" and "example" in j.get("target", {}).get("kind", []):
+            built.add(j["target"]["name"])
+    failed = []
+    samples = []
+    for t in table:
+        ok = t["name"] in built and t["name"] not in errs
+        if not ok and t["name"] not in errs:
+            infra.append("probe %s neither compiled nor reported an error: %s" % (t["name"], p.stderr[-600:]))
+            continue
+        if not ok:
+            msg = "\n".join(errs[t["name"]])[:3000]
+            # a negative probe fails ONLY by ambiguity (E0283/E0282/E0284 'type annotations needed'); anything else is infrastructure
+            if t["kind"] == "negative" and not ("type annotations needed" in msg or "E0283" in msg or "E0282" in msg or "E0284" in msg):
+                infra.append("negative probe %s failed for an unrelated reason: %s" % (t["name"], msg[:800]))
+                continue
+            if t["kind"] == "positive" and not ("cannot be sent between threads" in msg or "cannot be shared between threads" in msg or "E0277" in msg):
+                infra.append("positive probe %s failed for an unrelated reason: %s" % (t["name"], msg[:800]))
+                continue
+            src = os.path.join(crate, "examples", t["name"] + ".rs")
+            failed.append({"name": "types::%s::%s" % (t["kind"], t["name"]), "tags": ["C16"], "kind": "type probe (%s)" % t["kind"], "rendered": msg,
+                           "clause": t["doc"], "counterexample": {"program": open(src).read(), "how_to_run": "place under examples/ of a crate depending on the repository and run `cargo check --example %s`: it must compile" % t["name"]}})
+        if len(samples) < 4:
+            samples.append({"obligation": "types::%s::%s" % (t["kind"], t["name"]), "what": t["doc"], "status": "discharged" if ok else "FAILED"})
+    return {"infra": infra, "failed": failed, "probes": len(table), "cmds": ["(cd <generated probe crate> && " + " ".join(cmd) + ")"], "samples": samples,
+            "summary": {"probes": len(table), "positive": sum(1 for t in table if t["kind"] == "positive"), "negative": sum(1 for t in table if t["kind"] == "negative"),
+                        "failed": [f["name"] for f in failed], "wall_s": round(wall, 1)}}
